@@ -15,6 +15,7 @@ from __future__ import annotations
 import json
 import multiprocessing as mp
 import os
+REPO = os.environ.get("VERIF_SELFTEST_REPO") or "/repo"
 import re
 import subprocess
 import sys
@@ -129,11 +130,11 @@ def validate_one(args):
 # ---------------------------------------------------------------------------------------------------------
 def repo_test_traces(scratch):
     out = os.path.join(scratch, "repo_traces.json")
-    env = dict(os.environ, PYOMA2_VERIF_TRACE=out, PYTHONPATH="/verif:/repo/src:/repo", MPLBACKEND="Agg", TQDM_DISABLE="1")
+    env = dict(os.environ, PYOMA2_VERIF_TRACE=out, PYTHONPATH=f"/verif:{REPO}/src:{REPO}", MPLBACKEND="Agg", TQDM_DISABLE="1")
     p = subprocess.run([sys.executable, "-m", "pytest", "-q", "-p", "no:cacheprovider", "-p", "harness.pytest_trace",
                         "tests/integration/setup/test_single_setup.py::test_plot_data",
                         "tests/integration/setup/test_single_setup.py::test_base_setup"],
-                       cwd="/repo", env=env, capture_output=True, text=True, timeout=900)
+                       cwd=REPO, env=env, capture_output=True, text=True, timeout=900)
     if not os.path.exists(out):
         raise core.MachineryFailure("the repository test run produced no trace file:\n" + p.stdout[-1500:] + p.stderr[-500:])
     return json.load(open(out))
